@@ -334,11 +334,16 @@ def small_alphabet(cls, m):
     sels = ["*"] if len(kinds) == 1 else list(range(len(kinds)))
     if cls == "mixed":
         sels.append("*")
+    if cls == "pag":
+        sels = [0, 2]  # directed, undirected; circle below on the reversed pair (o-> is a legal mark pair)
     ops = []
     for sel in sels[:3]:
         ops += [["ae", sel, [0, -1], [1, 0]], ["ae", sel, [0, 0], [1, 0]], ["re", sel, [0, -1], [1, 0]]]
+    if cls == "pag":
+        ops += [["ae", 1, [1, 0], [0, 0]], ["ae", 1, [1, -1], [0, 0]], ["re", 1, [1, 0], [0, 0]]]
     s0, s1 = sels[0], sels[-1]
-    ops += [["ae", s0, [1, -m], [0, 0]], ["ae", s0, [0, -m - 1], [1, 0]],
+    border = [[0, -m], [1, 0]] if cls == "pag" else [[1, -m], [0, 0]]
+    ops += [["ae", s0] + border, ["ae", s0, [0, -m - 1], [1, 0]],
             ["re", s1, [0, 0], [1, 0]], ["re", s0, [0, -m], [1, -m + 1]],
             ["ab", s0, [[[0, -1], [0, 0]], [[1, -1], [0, -m - 1]]]],
             ["ab", s0, [[[1, -1], [1, 0]], [[0, -1], [1, -1]]]],
@@ -405,10 +410,14 @@ def rand_history(rng, cls, nvars, m0, length):
         return u, v
 
     def pag_ok(sel, u, v):
+        """PAG: one arrow-type edge kind per variable pair, directed/circle edges from the lower to
+        the higher variable index (no two marks that a mark guard, property C03, could object to)"""
         if cls != "pag":
             return True
         key = frozenset((u[0], v[0]))
         used = pag_pairs.setdefault(key, set())
+        if sel in (0, 1) and u[0] > v[0]:
+            return False
         if sel == 2 or not used or used <= {sel, 2}:
             return True
         return False
@@ -572,7 +581,6 @@ def run(ctx):
             bad_model.append((case, md))
     ev.extra["states_decided_by_lean_decider"] = len(states)
     ev.extra["exhaustive_part"] = "all histories up to length %d over the reduced alphabet" % (2 if ctx["tier"] == "quick" else 3)
-    known = {f["id"]: f for f in ctx["findings"] if f.get("status") == "known"}
     if bad_spec or bad_model:
         drv = C.Driver()
         try:
@@ -595,7 +603,6 @@ def run(ctx):
                                  "lean_request": run_line(small), "histories_differing": len(bad_model)})
         finally:
             drv.close()
-    del known
 
 
 class _InvView(dict):
